@@ -1072,7 +1072,8 @@ impl<R: RefCounter, PR: PathRefCounter, H: Header> Memory<R, PR, H> {
         } => {
           if remove_on_drop.load(Ordering::Acquire) {
             let _ = Box::from_raw(*buf);
-            core::ptr::drop_in_place(file);
+            // the file itself is closed when `Memory` is dropped (closing it here as well closed the
+            // descriptor twice); an open file can be removed
             let _ = std::fs::remove_file(path.as_path());
             return;
           }
@@ -1082,14 +1083,14 @@ impl<R: RefCounter, PR: PathRefCounter, H: Header> Memory<R, PR, H> {
         }
         MemoryBackend::Mmap {
           path,
-          file,
           buf,
           remove_on_drop,
           ..
         } => {
           if remove_on_drop.load(Ordering::Acquire) {
             let _ = Box::from_raw(*buf);
-            core::ptr::drop_in_place(file);
+            // the file itself is closed when `Memory` is dropped (closing it here as well closed the
+            // descriptor twice); an open file can be removed
             let _ = std::fs::remove_file(path.as_path());
             return;
           }
